@@ -127,6 +127,9 @@ def handle(module, pid, ob, twin, findings):
     rec = {"name": ob.name + ("~" + twin if twin else ""), "ob": ob.name, "twin": twin, "mode": ob.mode,
            "kind": ob.kind, "params": ob.params, "fn": ob.fn.__name__, "events": []}
     v = run_symbolic(module, ob, twin)
+    if v.get("status") == "unknown" and ob.kind == "py":
+        # refutation searches carry their own budget: running into the hard wall is "searched", never retried
+        v = dict(v, status="searched", message="no verdict within the wall-clock budget (%s)" % v.get("message"))
     if v.get("status") == "unknown" and not twin:
         # one retry with a larger budget before calling it inconclusive
         rec["events"].append("retry after inconclusive (%s)" % v.get("message", ""))
